@@ -18,7 +18,7 @@ Three clauses of the property:
                                       bucket of the live commit container, hence more than the replaced certificate
                                       whenever that has the same (round, root) and its round is not below State.Round.
 -/
-import Ssv.Proofs.HeightsLight
+import Ssv.Proofs.HeightsTop
 
 namespace Ssv.Heights
 
@@ -215,6 +215,35 @@ theorem C15_stored_highest_never_rerun (full : Bool) (q : Nat) (ops ops' : List 
 
 example : consensusStart (run (run (init true 3) [.decided 5 1 110 [1, 2, 3] true false]) [.restart false, .begin 8, .restart true])
     (.start 6) = some 6 := by decide
+
+/-- FULL STATEMENT ("the highest decided instance" is what is stored): every valid decided message at or above the
+    controller height ends up as the stored highest record (mechanism: "save as highest only if height >= current") -/
+def C15_top_decided_is_stored_full : Prop :=
+  ∀ (full : Bool) (q : Nat) (ops : List Op) (h r root : Nat) (sg : List Nat) (via : Bool),
+    q ≤ sg.length → (run (init full q) ops).c.height ≤ h →
+    ∃ b, (step (run (init full q) ops) (.decided h r root sg true via)).1.s.highest = some b ∧ b.inst.height = h
+
+/-- false on full nodes, by the same reload: the future decided message of height 5 bumps Height to 5 but nothing is
+    saved as highest (the save looks the instance up in `StoredInstances`, where the reloaded one is not) -/
+theorem C15_top_decided_is_stored_full_refuted : ¬ C15_top_decided_is_stored_full := by
+  intro H
+  obtain ⟨b, hb, _⟩ := H true 3 [.start 9, .decided 5 1 110 [1, 2, 3] true false, .restart true] 5 1 110 [1, 2, 3] false
+    (by decide) (by decide)
+  have hn : (step (run (init true 3) [.start 9, .decided 5 1 110 [1, 2, 3] true false, .restart true])
+      (.decided 5 1 110 [1, 2, 3] true false)).1.s.highest = none := by decide
+  rw [hn] at hb
+  cases hb
+
+/-- PARTIAL: it holds whenever the instance is not merely reloaded from storage, i.e. on every light node, and on a full
+    node when the instance is in memory or the historical store has no record of that height -/
+theorem C15_top_decided_is_stored_partial (full : Bool) (q : Nat) (ops : List Op) (h r root : Nat) (sg : List Nat) (via : Bool)
+    (hq : q ≤ sg.length) (hge : (run (init full q) ops).c.height ≤ h)
+    (hnr : (run (init full q) ops).c.full = false ∨ (find (run (init full q) ops).c.insts h).isSome = true ∨
+      histGet (run (init full q) ops).s.hist h = none) :
+    ∃ b, (step (run (init full q) ops) (.decided h r root sg true via)).1.s.highest = some b ∧ b.inst.height = h :=
+  top_decided_stored (SInvT.reach full q ops) h r root sg via (by rw [run_q]; exact hq) hge hnr
+
+example : (run (init true 3) [.start 4]).c.height ≤ 6 ∧ histGet (run (init true 3) [.start 4]).s.hist 6 = none := by decide
 
 /-! ## clause 3 — stored decided instances are only replaced upwards -/
 
